@@ -22,13 +22,19 @@ RULE = ("(i) gated schedules of the real Runner threads with scripted input stre
         "distinct by (options, script, schedule)")
 TRUSTED = ["Lean 4.33 kernel", "axioms propext/Classical.choice/Quot.sound only", "harness/gate.py gate scheduler + harness/runnerio.py",
            "model Invoke/Model/RunnerIO.lean hand-written, tied by correspondence on every run",
+           "Model/Encode.lean: utf-8 / latin-1 / utf-16 / utf-8-sig encoders modelled and compared with the real write_proc_stdin; "
+           "other codecs judged by the oracle only; tools/extractors/runnerstate.py probe (canonicalisation of attribute values)",
            "CPython threading, select/termios readiness probing (modelled as ready/not-ready/EOF items, not verified)"]
 ASSUMPTIONS = ["input that becomes available only after the command has exited need not be forwarded (the loop stops once the "
                "program is finished and a read yields nothing) - the oracle constrains only what was read",
                "readiness probing on real terminals (select, FIONREAD) is exercised by real runs only"]
 LEVEL_TEXT = ("Lean 4 proofs over EVERY schedule of the runner transition system: stdin_forwarded_exactly (conservation: forwarded ++ "
               "pending ++ unread = input), forwarded_is_prefix, exhausted_input_fully_forwarded, eof_closes_at_most_once, "
-              "eof_read_leads_to_close, echo_table / echo_mirrors_forwarded, disabled_input_forwards_nothing; the transition system "
+              "eof_read_leads_to_close, echo_table / echo_mirrors_forwarded, disabled_input_forwards_nothing; the encoding step as an "
+              "Encoder state machine: encode_incremental_eq_whole, command_receives_encoding_of_input (bytes received = encoding of the "
+              "input text, every encoder, every schedule), utf16_marker_once, per_piece_repeats_marker_counterexample; "
+              "reused_runner_starts_like_fresh over the RunnerState table REGENERATED from the real Local (what a runner object "
+              "carries from one run into the next); the transition system "
               "is tied to Runner.handle_stdin/read_our_stdin/write_proc_stdin by gate-scheduled runs of the real threads on every run, "
               "plus an oracle on the bytes the child received and real cat/wc children")
 TECHNIQUE = "Lean 4 invariant proofs over all schedules + gated-thread model/implementation correspondence"
